@@ -51,6 +51,11 @@ CHECKS = {
    category="model_checking", design_ref="§5 C12",
    text="TLC prescribes the physical order (-1/0/+1) of every commensurable pair of the pool; the code's ==, !=, <, <=, >, >= in both argument orders must be exactly the truth table of that order; equal pairs must hash equally; random mixed-unit lists must sort into physical order.",
    note="Synthetic S2; Level/Measurement symmetry is covered in the thorough tier section of the evidence when present."),
+
+ "C10": dict(engine="temperature", technique="TLA+ spec (Temp.tla: exact affine definitions over rationals; round trip, absolute zero, difference and monotonicity theorems checked by TLC) with TLC enumerating scale pair x prefix x magnitude x kind cases; each replayed on the real library",
+   category="model_checking", design_ref="§5 C10",
+   text="TLC computes the exact rational result of every conversion among K, degC, R, degF for every prefix pair and grid magnitude (incl. the absolute zeros and values below them) and the kelvin order of cross-scale pairs; the real library must agree within 1e-9 (Decimal included), return the asked unit, convert back, and order/compare consistently - in fresh forks and in shared processes in two orders.",
+   note="Magnitude grid and prefixes as in evidence; equality ties across scales are not judged (rounding)."),
 }
 BUILT = set(CHECKS)
 m = {"version": 1, "setup_cmd": "./setup.sh",
@@ -61,6 +66,7 @@ m = {"version": 1, "setup_cmd": "./setup.sh",
  "engines": [
    {"name": "conversions", "path": "spec/Conversions.tla spec/MC_ConvNodes.tla spec/MC_ConvShapes.tla spec/MemoShipped.tla harness/conversions.py", "serves_properties": ["C04", "C05", "C07", "C08"], "kind_free_text": "TLC enumeration + exact oracle + replay on the real library (python and python -O)"},
    {"name": "quantities", "path": "spec/Num.tla spec/Quantities.tla spec/MC_Quantities.tla harness/quantities.py", "serves_properties": ["C03", "C06", "C11", "C12"], "kind_free_text": "TLC as exhaustive small-scope enumerator and exact-arithmetic oracle + replay on the real library"},
+   {"name": "temperature", "path": "spec/Temp.tla spec/MC_Temp.tla harness/temperature.py", "serves_properties": ["C10"], "kind_free_text": "TLC exact affine oracle + replay"},
    {"name": "registry", "path": "spec/Registry.tla spec/MC_Registry.tla harness/registry.py harness/alpha.py", "serves_properties": ["C01", "C02", "C15"], "kind_free_text": "TLC model checking + spec->code replay of every transition (fork tree)"},
  ],
  "checks": [], "notes": "Every check: ./check <id> [--tier quick|thorough]; exit 0 held / 1 VIOLATION / 2 machinery failure. known_findings.txt lists genuine defects left unrepaired and repairs made.",
